@@ -27,7 +27,9 @@ from mpilot.parser.parser import Parser
 assert os.path.abspath(mpilot.__file__).startswith(os.path.abspath(os.environ["VERIF_SNAP"])), mpilot.__file__
 STRS = ["", "text", "two words", "it's", 'say "hi"', "back\\slash", "tab\there", "line\nbreak", "é à ü", "\u2013 dash", "中文", "a,b=(c)[d]:#e", "  padded  ",
         "C:\\temp\\new.csv", "'quoted'", '"dq"', "ends with \\", "\\n literal", "x\ry", "percent % and #hash", "True", "12", "1e5", "[x]", "k: v",
-        "cover_{2020}", "{{x}}", "{", "{0} %s %(a)s", "$HOME ~ `x` | & ; < > ? * ! @ ^", "a\\\"b", "\x00ctl\x7f", "\u00ff\u0100 \U0001F600"]
+        "cover_{2020}", "{{x}}", "{", "{0} %s %(a)s", "$HOME ~ `x` | & ; < > ? * ! @ ^", "a\\\"b", "\x00ctl\x7f", "\u00ff\u0100 \U0001F600",
+        "a sentence that is long enough to run past any line-length limit a formatter might have in mind - with hyphen-ated words, a\ttab and more words " * 2,
+        "word " * 40, "x" * 150]
 ALPHA = [chr(c) for c in range(32, 127)] + ["\t", "\n", "\r", "\\", '"', "'", "{", "}", "\u00e9", "\u4e2d", "\u2013"]
 
 
@@ -320,7 +322,8 @@ def value_for(rnd, p, depth=0):
     if t is P.BooleanParameter:
         return rnd.choice([True, False])
     if t is P.ListParameter:
-        return [value_for(rnd, p.value_type, depth + 1) for _ in range(rnd.randint(0, 3))]
+        k = rnd.randint(0, 3) if depth or rnd.random() < 0.75 else rnd.randint(12, 40)      # long lists: the line gets far longer than any screen
+        return [value_for(rnd, p.value_type, depth + 1) for _ in range(k)]
     if t is P.TupleParameter:
         return {rnd.choice(["k", "Description"]): rstr(rnd)} if rnd.random() < 0.85 else {}
     if t is P.PathParameter:
